@@ -66,7 +66,9 @@ ASSUMPTIONS = [
     "server_close raising BusyResourceError while a serve_forever is between its start and 'is up' is the documented latitude: "
     "then it has no obligations",
     "server_close is not required to make a running serve_forever return (it keeps serving connected clients); shutdown is",
-    "a shutdown whose call began before a serve_forever began (threads: before it was up) is not required to stop it",
+    "a shutdown whose call began before a serve_forever began is not required to stop it; threads: 'began' = its thread took the bootstrap lock "
+    "(state checks passed) - a serve_forever that had begun before shutdown() was called must not come up after that shutdown() returned; "
+    "one that was up before must have stopped",
     "asyncio backend only; shutdown(timeout=None) only; the event loop of the standalone servers is the stock asyncio "
     "SelectorEventLoop on the virtual selector, injected with runner_options={'loop_factory': ...}",
 ]
@@ -159,7 +161,7 @@ def make_backend(world: World, listeners: list, nlisten: int = 1) -> AsyncIOBack
 
 
 class Op:
-    __slots__ = ("i", "op", "launch_it", "launch", "b", "e", "up", "result", "snap")
+    __slots__ = ("i", "op", "launch_it", "launch", "b", "e", "up", "result", "snap", "committed")
 
     def __init__(self, i: int, op: str) -> None:
         self.i = i
@@ -169,12 +171,13 @@ class Op:
         self.b: int | None = None  # logical instant at which the call began / ended
         self.e: int | None = None
         self.up: int | None = None  # serve_forever: is_up_event.set()
+        self.committed: int | None = None  # threads: serve_forever took the bootstrap lock (it passed its state checks: the run has begun)
         self.result: str | None = None
         self.snap: dict = {}
 
     def doc(self) -> dict:
         return {"i": self.i, "op": self.op, "launch_it": self.launch_it, "b": self.b, "e": self.e, "up": self.up, "result": self.result,
-                "snap": dict(self.snap)}
+                "snap": dict(self.snap), "committed": self.committed}
 
 
 class UpEvent:
@@ -650,6 +653,23 @@ def run_threads(ctx: Ctx, cfg: dict, trace: bool = False) -> dict:
             server = StandaloneUDPNetworkServer("127.0.0.1", 0, DatagramProtocol(StringLineSerializer()), EchoDatagram(), backend,
                                                 runner_options={"loop_factory": loop_factory})
 
+        # the commit point of a serve_forever(): the instant its thread takes the bootstrap lock (state checks passed, the run has begun)
+        class RecRLock(vthreads.CRLock):
+            def acquire(self, blocking: bool = True, timeout: float = -1) -> bool:
+                got = super().acquire(blocking, timeout)
+                th = sched.current_thread()
+                rec = cur_rec.get(th.index) if th is not None else None
+                if got and rec is not None and rec.op in ("S", "N") and rec.committed is None and rec.result is None:
+                    rec.committed = tick()
+                return got
+
+            __enter__ = acquire
+
+        fsl = server._BaseStandaloneNetworkServerImpl__bootstrap_lock
+        if not isinstance(fsl.get(), vthreads.CRLock):
+            raise RuntimeError("the bootstrap lock is not the controlled RLock the harness expects")
+        fsl._ForkSafeLock__unsafe_lock = RecRLock()
+
         def body(rec: Op) -> Any:
             def f() -> None:
                 th = sched.current_thread()
@@ -781,6 +801,12 @@ def oracle_threads(obs: dict) -> list[str]:
         for s in S:
             if s["up"] is not None and s["up"] < h["b"] and s["i"] in h["snap"]["loops_running"]:
                 bad.append("shutdown-returned-while-serving")
+        # a serve_forever that had passed its state checks (holds the bootstrap lock) before shutdown() was called is stopped by it
+        # as well: it must not come up after this shutdown() returned (shutdown waits on that lock until the run can be stopped)
+        for s in S + N:
+            if s.get("committed") is not None and s["committed"] < h["b"] and s["result"] in ("ok", None) and s["op"] == "S":
+                if s["up"] is not None and s["up"] > h["e"]:
+                    bad.append("shutdown-returned-and-the-begun-serve-forever-came-up-afterwards")
         # is_serving() right after: must be false unless some serve_forever may legitimately be (coming) up
         maybe_up = [s for s in S + N if not (s["up"] is not None and s["up"] < h["b"]) and _end(s) > h["e"]]
         if h["snap"].get("is_serving") and not maybe_up:
